@@ -182,6 +182,9 @@ func (st *store) exec(line string) (out string) {
 	if ws[0] == "chain" {
 		return runAliasChain(line)
 	}
+	if ws[0] == "handle" {
+		return runHandleChain(line)
+	}
 	iter := func(n string) *simdjson.Iter {
 		i, ok := st.iters[n]
 		if !ok {
